@@ -13,7 +13,7 @@ std::map<std::string, RunFn>& policies() {
 }
 
 static const char* kPolicies[] = {"dbg", "rel", "dbg_ind", "rel_ind",
-                                  "rel_map"};
+                                  "rel_map", "dbg_inh"};
 
 // pool sizes per method name (must mirror engine.hpp)
 static const std::map<std::string, int> kPool = {
@@ -24,9 +24,9 @@ static vf::json gen_case(vf::Choice& ch, int size, const std::string& prop) {
     if (prop == "C15") {
         c["policy"] = ch.draw(2) ? "dbg_ind" : "dbg";
     } else {
-        c["policy"] = kPolicies[ch.draw(5)];
+        c["policy"] = kPolicies[ch.draw(6)];
     }
-    int style = ch.draw(4);
+    int style = ch.draw(5);
     c["style"] = style;
     std::vector<int> order;
     for (int i = 0; i < 16; ++i) {
@@ -36,7 +36,7 @@ static vf::json gen_case(vf::Choice& ch, int size, const std::string& prop) {
     c["order"] = order;
     c["left_out"] = -1;
     if (prop == "C15") {
-        c["style"] = 2;
+        c["style"] = ch.draw(2) ? 4 : 2;
         c["left_out"] = int(ch.draw(NCLS));
     }
     vf::json defs = vf::json::object();
